@@ -250,6 +250,27 @@ def run(tier, seed):
     st.runs += ne
     st.transitions += ne
     st.bump("expression_site_runs", ne)
+    # a ternary in every expression context (V25 generalised): assignment, compound assignment, conditions, return,
+    # both argument positions, index, nested call argument, declaration initialiser, global initialiser, #define value
+    from . import c01_expr as ce
+    tern = norm.V("n") + [norm.SP(), norm.P("tern", "?"), norm.SP()] + norm.C("1") + [norm.SP(), norm.P("colon", ":"), norm.SP()] + norm.C("0")
+    ttasks = []
+    for ctx in ce.CONTEXTS:
+        body = ce.body_for(ctx, tern)
+        ttasks.append((f"ternary@{ctx}", 18, "TERNARY_FBIDDEN", norm.render(norm.preamble(".c", "test.c")) + body))
+    hdrtxt = norm.render(norm.preamble(".c", "test.c"))
+    ttasks.append(("ternary@nested-call-arg", 18, "TERNARY_FBIDDEN", hdrtxt + ce.FUNC_HEAD + "\tft_f(ft_g(n ? 1 : 0), n);\n" + ce.FUNC_TAIL))
+    ttasks.append(("ternary@paren", 18, "TERNARY_FBIDDEN", hdrtxt + ce.FUNC_HEAD + "\tn = (n ? 1 : 0) + 1;\n" + ce.FUNC_TAIL))
+    ttasks.append(("ternary@static-init", 15, "TERNARY_FBIDDEN", hdrtxt + "int\tft_test(int n)\n{\n\tstatic int\tx = 1 ? 2 : 3;\n\n\treturn (n + x);\n}\n"))
+    ttasks.append(("ternary@global-init", 13, "TERNARY_FBIDDEN", hdrtxt + "static int\tg_x = 1 ? 2 : 3;\n\nint\tmain(void)\n{\n\treturn (g_x);\n}\n"))
+    ttasks.append(("ternary@define", 13, "TERNARY_FBIDDEN", hdrtxt + "#define LIMIT (1 ? 2 : 3)\n\nint\tmain(void)\n{\n\treturn (0);\n}\n"))
+    tres = explore.pmap(_wrapped_task, ttasks, chunksize=2)
+    st.runs += len(ttasks)
+    st.bump("ternary_context_runs", len(ttasks))
+    for (label, ln, code, text), prob in zip(ttasks, tres):
+        if prob:
+            failures.append(Failure("C02", f"V25:{code}:{prob}:{label}", f"a ternary in context {label.split('@')[1]}: {prob}",
+                                    {"kind": "wrapped", "text": text, "code": code, "line": ln}))
     # statements spanning two physical lines (wrapped condition, call, return, assignment, signature, prototype):
     # a trailing blank on each physical line
     from . import c03
